@@ -1,4 +1,5 @@
 import SuccinctlyVerif.Spec.Bits
+import SuccinctlyVerif.Spec.BP
 import SuccinctlyVerif.Model.Words
 import SuccinctlyVerif.Model.Scan
 import Driver.Util
@@ -43,9 +44,19 @@ def exec (a : List String) : String :=
     let s := scanSelectScalar popc ws st rem
     if m ≠ s then s!"MODEL-SPEC {scanStr m};{scanStr s}" else s!"{scanStr m};{scanStr s}"
   | ["fuc", w] =>
-    toString (findUnmatchedCloseInWord (parseWord w))
+    let x := parseWord w
+    let m := findUnmatchedCloseInWord x
+    let spec := (BP.findUnmatchedClose (wordBits x)).getD 64
+    if m ≠ spec then s!"MODEL-SPEC {m},{spec}" else toString m
   | ["fcw", w, p] =>
-    optStr (findCloseInWord (parseWord w) (parseNat p))
+    let x := parseWord w; let p := parseNat p
+    let m := findCloseInWord x p
+    -- spec side of `SV.Props.C02.find_close_in_word_eq`
+    let spec : Option Nat :=
+      if p ≥ 64 then none
+      else if x.getLsbD p = false then some p
+      else BP.findClose (wordBits x) p
+    if m ≠ spec then s!"MODEL-SPEC {optStr m},{optStr spec}" else optStr m
   | _ => "BAD-OP"
 
 end SV.Drv.C02
